@@ -58,6 +58,74 @@ func sliceBounds(info *types.Info, s *ast.SliceExpr) (lo, hi int64, ok bool) {
 	return lo, hi, true
 }
 
+// absSlice resolves a byte-slice expression to a window [lo:hi) of the record buffer root (hi = -1: open end),
+// following re-slicing and single-definition locals (head := data[:40]; head[24:] is data[24:40]).
+// rooted tells whether the expression is derived from root at all; ok whether all bounds are constants.
+func absSlice(fi *FuncInfo, root types.Object, e ast.Expr, depth int) (lo, hi int64, rooted, ok bool) {
+	info := fi.Pkg.TypesInfo
+	if depth > 6 {
+		return 0, 0, false, false
+	}
+	switch x := ast.Unparen(e).(type) {
+	case *ast.Ident:
+		o := objOf(info, x)
+		if o == nil {
+			return 0, 0, false, false
+		}
+		if o == root {
+			return 0, -1, true, true
+		}
+		// single definition of a local
+		var defs []ast.Expr
+		ast.Inspect(fi.Decl.Body, func(n ast.Node) bool {
+			if as, isAs := n.(*ast.AssignStmt); isAs && len(as.Lhs) == len(as.Rhs) {
+				for i, l := range as.Lhs {
+					if objOf(info, l) == o {
+						defs = append(defs, as.Rhs[i])
+					}
+				}
+			}
+			if vs, isVs := n.(*ast.ValueSpec); isVs && len(vs.Names) == len(vs.Values) {
+				for i, nm := range vs.Names {
+					if info.Defs[nm] == o {
+						defs = append(defs, vs.Values[i])
+					}
+				}
+			}
+			return true
+		})
+		if len(defs) != 1 {
+			return 0, 0, false, false
+		}
+		return absSlice(fi, root, defs[0], depth+1)
+	case *ast.SliceExpr:
+		ilo, ihi, r, k := absSlice(fi, root, x.X, depth+1)
+		if !r {
+			return 0, 0, false, false
+		}
+		if !k {
+			return 0, 0, true, false
+		}
+		lo, hi = ilo, ihi
+		if x.Low != nil {
+			v, c := constInt(info, x.Low)
+			if !c {
+				return 0, 0, true, false
+			}
+			lo = ilo + v
+		}
+		if x.High != nil {
+			v, c := constInt(info, x.High)
+			if !c {
+				return 0, 0, true, false
+			}
+			hi = ilo + v
+		}
+		return lo, hi, true, true
+	}
+	return 0, 0, false, false
+}
+
 // fileFieldIn finds the field of model.File an expression is derived from, following
 // single-assignment locals (txId, err := uuid.Parse(f.TxId)).
 func fileFieldIn(fi *FuncInfo, e ast.Expr, depth int) string {
@@ -214,11 +282,13 @@ func c19WriterTable(p *Prog, r *Report, mar *FuncInfo) map[string]layoutRow {
 		if !ok || len(c.Args) < 2 {
 			return true
 		}
-		se, ok := ast.Unparen(c.Args[0]).(*ast.SliceExpr)
-		if !ok || objOf(info, se.X) != dataObj {
+		lo, hi, rooted, okb := absSlice(mar, dataObj, c.Args[0], 0)
+		if !rooted || dataObj == nil {
 			return true
 		}
-		lo, hi, okb := sliceBounds(info, se)
+		if id, isId := ast.Unparen(c.Args[0]).(*ast.Ident); isId && objOf(info, id) == dataObj {
+			return true // the whole buffer handed on (not a field write)
+		}
 		row := layoutRow{Lo: lo, Hi: hi, Pos: p.pos(c)}
 		row.Field = fileFieldIn(mar, c.Args[1], 0)
 		if !okb {
@@ -268,6 +338,16 @@ func c19WriterTable(p *Prog, r *Report, mar *FuncInfo) map[string]layoutRow {
 func c19ReaderTable(p *Prog, r *Report, unm *FuncInfo) map[string]layoutRow {
 	info := unm.Pkg.TypesInfo
 	tab := map[string]layoutRow{}
+	var dataParam types.Object
+	for _, fld := range unm.Decl.Type.Params.List {
+		for _, nm := range fld.Names {
+			if o := info.Defs[nm]; o != nil {
+				if sl, ok := o.Type().(*types.Slice); ok && types.Identical(sl.Elem(), types.Typ[types.Byte]) {
+					dataParam = o
+				}
+			}
+		}
+	}
 	ast.Inspect(unm.Decl.Body, func(x ast.Node) bool {
 		as, ok := x.(*ast.AssignStmt)
 		if !ok || len(as.Lhs) != 1 || len(as.Rhs) != 1 {
@@ -281,10 +361,23 @@ func c19ReaderTable(p *Prog, r *Report, unm *FuncInfo) map[string]layoutRow {
 			return true
 		}
 		row := layoutRow{Field: sel.Sel.Name, Pos: p.pos(as), Enc: "unrecognised"}
-		var se *ast.SliceExpr
+		var se ast.Expr
+		var lo, hi int64
+		okb := false
 		ast.Inspect(as.Rhs[0], func(y ast.Node) bool {
-			if s, ok := y.(*ast.SliceExpr); ok && se == nil {
-				se = s
+			if se != nil {
+				return false
+			}
+			e, isE := y.(ast.Expr)
+			if !isE {
+				return true
+			}
+			switch e.(type) {
+			case *ast.SliceExpr, *ast.Ident:
+				if l, h, rooted, k := absSlice(unm, dataParam, e, 0); rooted {
+					se, lo, hi, okb = e, l, h, k
+					return false
+				}
 			}
 			return true
 		})
@@ -292,7 +385,6 @@ func c19ReaderTable(p *Prog, r *Report, unm *FuncInfo) map[string]layoutRow {
 			tab[row.Field] = row
 			return true
 		}
-		lo, hi, okb := sliceBounds(info, se)
 		row.Lo, row.Hi = lo, hi
 		if okb {
 			// classify decoding
@@ -429,8 +521,11 @@ func c19Guards(p *Prog, r *Report, mar, unm *FuncInfo) {
 			continue
 		}
 		walkNoLit(n.Ast, func(x ast.Node) bool {
-			if se, ok := x.(*ast.SliceExpr); ok && objOf(info, se.X) == dataObj {
-				lo, hi, okb := sliceBounds(info, se)
+			if se, ok := x.(*ast.SliceExpr); ok {
+				lo, hi, rooted, okb := absSlice(unm, dataObj, se, 0)
+				if !rooted {
+					return true
+				}
 				if !okb {
 					r.Viol("C19.b", kUnmarshal+"#slice", p.pos(se), "slice bound is not a compile-time constant: cannot be covered by the length guard")
 					return true
@@ -441,9 +536,13 @@ func c19Guards(p *Prog, r *Report, mar, unm *FuncInfo) {
 				}
 				sites = append(sites, site{n.ID, b, p.pos(se), types.ExprString(se)})
 			}
-			if ie, ok := x.(*ast.IndexExpr); ok && objOf(info, ie.X) == dataObj {
-				if v, okc := constInt(info, ie.Index); okc {
-					sites = append(sites, site{n.ID, v + 1, p.pos(ie), types.ExprString(ie)})
+			if ie, ok := x.(*ast.IndexExpr); ok {
+				blo, _, rooted, okb := absSlice(unm, dataObj, ie.X, 0)
+				if !rooted {
+					return true
+				}
+				if v, okc := constInt(info, ie.Index); okc && okb {
+					sites = append(sites, site{n.ID, blo + v + 1, p.pos(ie), types.ExprString(ie)})
 				} else {
 					r.Viol("C19.b", kUnmarshal+"#index", p.pos(ie), "index is not a compile-time constant")
 				}
@@ -451,8 +550,7 @@ func c19Guards(p *Prog, r *Report, mar, unm *FuncInfo) {
 			if c, ok := x.(*ast.CallExpr); ok && len(c.Args) == 1 {
 				if tv, ok := info.Types[c.Fun]; ok && tv.IsType() {
 					if at, ok := tv.Type.Underlying().(*types.Array); ok {
-						if se, ok := ast.Unparen(c.Args[0]).(*ast.SliceExpr); ok {
-							lo, hi, okb := sliceBounds(info, se)
+						if lo, hi, rooted, okb := absSlice(unm, dataObj, c.Args[0], 0); rooted {
 							cons := kUnmarshal + "#array-conversion"
 							r.Check(okb && hi >= 0 && hi-lo == at.Len(), "C19.b", cons, p.pos(c),
 								fmt.Sprintf("slice of constant length %d converted to [%d]byte", hi-lo, at.Len()),
